@@ -1233,6 +1233,7 @@ var Engine = &core.Engine{
 		"without RETURNING a database-function default need only be readable afterwards, not back-filled into the in-memory record",
 		"gob-serialized values never contain empty non-nil slices/maps (gob does not distinguish them from nil) and are never nil pointers (gob refuses them)",
 		"RowsAffected is not part of the statement and is not checked",
+		"a pointer field whose type is its own serializer (*SelfJS) never sits below a pointer-embedded struct and is non-nil in every ordinary record; the nil pointer is exercised once per database by a closing single Create (it panics inside gorm as long as the Value method is called through the nil pointer)",
 		"the first Create of every database is a single record with every embedded pointer set, and Create([]map) by value runs last: where gorm panics the handle is abandoned, and inside CreateInBatches a panic would dead-lock database/sql's Rollback",
 		"a deviation class already reported in a database is counted, not reported again, and the harness then stops provoking it there (nil embedded pointers above gob/unixtime fields, Model-bound map reads of serializer models) so that the remaining checks still run",
 	},
